@@ -6,6 +6,18 @@ import os
 VERIF = os.path.dirname(os.path.dirname(os.path.abspath(__file__)))
 
 CHECKS = {
+    "C09": dict(
+        technique="object-level behaviours of Command.tla (construct/probe/discard over live objects, action property "
+                  "Isolation) instantiated with all ordered class pairs; thread schedules enumerated by TLC from Sched.tla "
+                  "(preemption-bounded, line granularity) and executed by a settrace scheduler on real threads",
+        text="After every action of every exported behaviour each live object's CDB/buffers and the probed class's "
+             "decode/re-encode are compared with the class's isolated reference (itself validated by TLC against "
+             "T10Cdb.tla). All 42x42 ordered pairs on the canonical sequences, every behaviour on 10 representative "
+             "classes, sampled triples, shared/mutable constructor arguments, and every <=P-preemption schedule of 2 "
+             "threads that each build, decode and re-encode their own command.",
+        note="Yield points = CPython 'line' events inside <repo>/pyscsi; quick: P=1 on every 3rd yield point for 4 class "
+             "pairs, thorough: P=2 every 4th point for 11 pairs. GIL-level (bytecode) interleavings are not explored.",
+        ref="6 C09"),
     "C07": dict(
         technique="transport state machine (Transport.tla: target completes -> binding reports -> library maps, command "
                   "objects re-executed) model-checked by TLC; every (history, status 0..255, sense, raw flag) case replayed "
